@@ -89,3 +89,17 @@ package proto
 //@   ensures err == nil ==> c.PrecisionSet [C16,C18,C19] {precision-set}
 //@   ensures [internal] err == nil ==> c.Precision == p [C16,C18,C19] {adopts-the-inferred-precision-whatever-it-held}
 //@   ensures err == nil ==> c.Precision <= 9 [C19] {precision-is-valid}
+
+// ---------------------------------------------------------------------------
+// C19: Enum parameter parsing is total - whatever the text between the parentheses looks like
+// (empty names, missing quotes, no '=', arbitrary bytes) it ends in an error or a definition,
+// never in a panic.
+//@ contract (e *ColEnum) parse(t) (err) props(C19)
+//@   requires e != nil
+//@   modifies e.rawToStr, e.strToRaw, contents(e.rawToStr), contents(e.strToRaw)
+//@ loop 0 (rangeindex)
+//@   modifies contents(e.rawToStr), contents(e.strToRaw)
+//@   invariant e.rawToStr != nil && e.strToRaw != nil
+//@ contract (e *ColEnum) Infer(t) (err) props(C19)
+//@   requires e != nil
+//@   modifies e.rawToStr, e.strToRaw, contents(e.rawToStr), contents(e.strToRaw), e.base, e.t
